@@ -166,6 +166,8 @@ pub struct Kernel {
     spawn_observer: Option<Box<dyn FnMut(&str, usize)>>,
     pub event_seq: u64,
     opts: Vec<usize>,
+    /// while set, the current task keeps running as long as it is runnable
+    hold: bool,
 }
 
 thread_local! {
@@ -281,6 +283,7 @@ pub fn run<F: FnOnce() + 'static>(cfg: RunConfig, strategy: Box<dyn Strategy>, r
         spawn_observer: None,
         event_seq: 0,
         opts: Vec::with_capacity(16),
+        hold: false,
     });
     let kp = Box::into_raw(kernel);
     KERNEL.with(|k| unsafe { *k.get() = kp });
@@ -384,6 +387,11 @@ impl Kernel {
                 if self.tasks[inj].state == TState::Runnable {
                     return Some(inj);
                 }
+            }
+        }
+        if self.hold {
+            if let Some(c) = cur {
+                return Some(c);
             }
         }
         let mut opts = std::mem::take(&mut self.opts);
@@ -685,6 +693,11 @@ pub fn abort_run() -> ! {
     k.abort = Some(Outcome::Aborted);
     suspend_current(k);
     unreachable!("resumed after abort");
+}
+
+/// While held, the calling task is not preempted (it still yields when it blocks).
+pub fn hold(on: bool) {
+    with(|k| k.hold = on);
 }
 
 pub fn panicking() -> bool {
